@@ -430,18 +430,28 @@ def _two_domains():
     return m, [d, a.rst], [a.clk, b.clk], [ra, rb, split]
 
 
-def _memory(transparent=True, gran=None, comb_read=False, depth=3, hier=False, with_rst=False, width=2, alphabet=None):
+def _memory(transparent=True, gran=None, comb_read=False, depth=3, hier=False, with_rst=False, width=2, alphabet=None, edge="pos", two_wp=False):
     def build():
         from amaranth.hdl import Module, Signal, ClockDomain
         from amaranth.lib.memory import Memory
         m = Module()
-        cd = ClockDomain("sync")
+        cd = ClockDomain("sync", clk_edge=edge)
         m.domains.sync = cd
         mem = Memory(shape=width, depth=depth, init=[1, 2])
         m.submodules.mem = mem
         wp = mem.write_port(granularity=gran)
+        extra_ins = []
+        if two_wp:
+            # a second write port; the read port is transparent for the SECOND one only (the transparency mask is indexed by port id)
+            wp2 = mem.write_port()
+            w2addr = Signal(len(wp2.addr), name="w2addr")
+            w2en = Signal(name="w2en")
+            m.d.comb += [wp2.addr.eq(w2addr), wp2.data.eq(3), wp2.en.eq(w2en)]
+            extra_ins = [w2addr, w2en]
         if comb_read:
             rp = mem.read_port(domain="comb")
+        elif two_wp:
+            rp = mem.read_port(transparent_for=[wp2])
         else:
             rp = mem.read_port(transparent_for=[wp] if transparent else [])
         waddr = Signal(len(wp.addr), name="waddr")
@@ -453,7 +463,7 @@ def _memory(transparent=True, gran=None, comb_read=False, depth=3, hier=False, w
         m.d.comb += [wp.addr.eq(waddr), wp.data.eq(wdata), wp.en.eq(wen), rp.addr.eq(raddr), rdata.eq(rp.data)]
         if not comb_read:
             m.d.comb += rp.en.eq(ren)
-        ins = [waddr, wdata, wen, raddr] + ([] if comb_read else [ren]) + ([cd.rst] if with_rst else [])
+        ins = [waddr, wdata, wen, raddr] + ([] if comb_read else [ren]) + ([cd.rst] if with_rst else []) + extra_ins
         if alphabet:
             return m, ins, [cd.clk], [rdata], alphabet
         return m, ins, [cd.clk], [rdata]
@@ -566,7 +576,8 @@ SEQ_DESIGNS = {
     "counter-arst-neg": _counter(edge="neg", async_reset=True), "counter-resetless": _counter(reset_less=True),
     "counter-hier": _counter(hier=True), "counter-shell": _counter(hier="shell"), "two-domains": _two_domains,
     "mem-transparent": _memory(True), "mem-nontransparent": _memory(False), "mem-gran1": _memory(True, gran=1),
-    "mem-combread": _memory(comb_read=True), "mem-depth4-rst": _memory(True, depth=4, with_rst=True),
+    "mem-combread": _memory(comb_read=True), "mem-neg": _memory(True, depth=2, edge="neg"),
+    "mem-two-writers": _memory(depth=2, two_wp=True, alphabet={"wdata": [1, 2], "ren": [1]}), "mem-depth4-rst": _memory(True, depth=4, with_rst=True),
     # partial-row writes: granularity strictly between 1 and the row width (data alphabet reduced to lane-distinguishing values)
     "mem-gran2-w4": _memory(True, gran=2, depth=2, width=4, alphabet={"wdata": [0b1111, 0b0110, 0b1001], "ren": [1]}),
     "mem-gran2-w4-comb": _memory(comb_read=True, gran=2, depth=2, width=4, alphabet={"wdata": [0b1111, 0b0110]}),
@@ -576,7 +587,7 @@ SEQ_DESIGNS = {
     "wrap-enable-reset": _wrapped("enable-reset"), "wrap-reset-dict": _wrapped("reset-dict"), "data-views": _views,
 }
 QUICK_SEQ = ["counter-pos", "counter-neg", "counter-arst", "counter-arst-neg", "counter-resetless", "counter-hier", "counter-shell", "two-domains",
-             "mem-transparent", "mem-nontransparent", "mem-gran1", "mem-combread", "mem-gran2-w4", "mem-gran2-w4-comb", "syncfifo-2", "syncfifobuf-3", "ffsync", "asyncffsync", "pulsesync",
+             "mem-transparent", "mem-nontransparent", "mem-gran1", "mem-combread", "mem-neg", "mem-two-writers", "mem-gran2-w4", "mem-gran2-w4-comb", "syncfifo-2", "syncfifobuf-3", "ffsync", "asyncffsync", "pulsesync",
              "wrap-reset", "wrap-enable", "wrap-rename", "wrap-enable-reset", "wrap-reset-dict", "data-views"]
 
 
